@@ -24,7 +24,12 @@ RULE = ("family hom/two: random phase-matched setups (degenerate and non-degener
         "hom_two_source_visibilities / hom_two_source_rate_series is read through each public route by which a HomTwoSourceResult leaves the crate - "
         "struct fields, HashMap::from(result) (channels by name), the way back HomTwoSourceResult::from(map), the serde map and its Deserialize - "
         "and the statement's predicates are evaluated on the values of every route (K: hom2_named / hom2_unnamed, exact, including maps with a "
-        "missing channel, a single channel, a foreign key and permuted key order)")
+        "missing channel, a single channel, a foreign key and permuted key order); family hom/twowin: the setup against itself through the method, the free "
+        "function and the zero entry of the method's rate series on windows that reach above the pump frequency (wavelength windows starting below the pump "
+        "wavelength; frequency windows aligned with the energy-conserving line whose last point lies at w_p (1 + eps), eps from 0 and 1e-12 to 0.3; one axis only; "
+        "descending), thin broadband BBO sources among the setups; family hom/twobig: sides 64-96 (more than 4096 grid points) on windows 0.3-0.6 of the optimum "
+        "range (non-zero first and last rows), V_ss = V_ii = SVD purity and the zero entry of a two-delay scan (S only); two-source delay lists with structure "
+        "(see C09) in one case of three; ranges with a shared first / last frequency")
 RESIDUAL = ("rate_si <= 1 for unequal signal/idler axes is not a theorem (it needs N1'N2' <= N1N2; the search hunts for a counterexample); "
             "model fidelity and rounding are measured by the comparison")
 CHECKER_MODULES = ["Spdc.Real.HomLemmas", "Spdc.Real.SchmidtLemmas", "Spdc.Real.TwoSrcLemmas"]
@@ -32,8 +37,8 @@ CHECKER_MODULES = ["Spdc.Real.HomLemmas", "Spdc.Real.SchmidtLemmas", "Spdc.Real.
 
 def families(tier, seed):
     if tier == "quick":
-        return [("hom", seed, 30, ["two"]), ("hom", seed, 4, ["twoloop"])]
-    return [("hom", seed, 200, ["two"]), ("hom", seed, 24, ["twoloop"])]
+        return [("hom", seed, 30, ["two"]), ("hom", seed, 4, ["twoloop"]), ("hom", seed, 16, ["twowin"]), ("hom", seed, 2, ["twobig"])]
+    return [("hom", seed, 200, ["two"]), ("hom", seed, 24, ["twoloop"]), ("hom", seed, 120, ["twowin"]), ("hom", seed, 8, ["twobig"])]
 
 
 # ------------------------------------------------------------------------------------------------------------------------------
